@@ -1,7 +1,7 @@
 # drives the REAL codec.py / trxd_proto.py with the line protocol of lean/OsmoVerif/Driver/Codec.lean
 #   codec.dec ENV hex | codec.enc ENV VALUE | codec.fdec FIELD VALUE hex | codec.fenc FIELD VALUE
 #   codec.pdu.dec NAME hex | codec.pdu.enc NAME VALUE
-# answers: ok VALUE consumed | ok hex | err <exception class> | err HANG (no answer within the time limit)
+# answers: ok VALUE consumed | ok hex | err <exception class> | err HANG (no answer within the CPU-time limit)
 # argv: <toolkit dir>
 import os, signal, sys
 sys.path.insert(0, sys.argv[1])
@@ -11,7 +11,7 @@ from lib import codecdef as cd
 
 try:
     import resource
-    resource.setrlimit(resource.RLIMIT_AS, (4 << 30, 4 << 30))
+    resource.setrlimit(resource.RLIMIT_AS, (3 << 30, 3 << 30))
 except Exception:
     pass
 
@@ -24,16 +24,18 @@ def _alarm(sig, frm):
     raise Hang()
 
 
-signal.signal(signal.SIGALRM, _alarm)
-LIMIT = float(os.environ.get("CODEC_HARNESS_LIMIT", "0.4"))
+# the limit is on the CPU time of this process (ITIMER_VIRTUAL), so machine load cannot turn a
+# terminating call into a reported hang; every terminating request needs microseconds
+signal.signal(signal.SIGVTALRM, _alarm)
+LIMIT = float(os.environ.get("CODEC_HARNESS_LIMIT", "1.0"))
 
 
 def guarded(fn):
-    signal.setitimer(signal.ITIMER_REAL, LIMIT)
+    signal.setitimer(signal.ITIMER_VIRTUAL, LIMIT)
     try:
         return fn()
     finally:
-        signal.setitimer(signal.ITIMER_REAL, 0)
+        signal.setitimer(signal.ITIMER_VIRTUAL, 0)
 
 
 def out_dec(vals, n):
